@@ -1002,6 +1002,17 @@ class Interp:
             return None
         if m == "is_empty":
             return vbool(s0 == "")
+        if m == "is_ascii":
+            return vbool(all(ord(ch) < 128 for ch in s0))
+        if m in ("split", "rsplit") and pv is not None and pv != "":
+            parts = s0.split(pv)
+            return Val("iter", [vstr(x) for x in (parts if m == "split" else parts[::-1])])
+        if m == "len":
+            return vint(len(s0.encode("utf-8")))
+        if m == "to_ascii_lowercase":
+            return vstr("".join(ch.lower() if ord(ch) < 128 else ch for ch in s0))
+        if m == "eq_ignore_ascii_case" and p is not None and p.k == "str":
+            return vbool(s0.lower() == p.v.lower())
         if m in ("as_str", "trim") :
             return vstr(s0.strip() if m == "trim" else s0)
         if m == "contains" and pv is not None:
